@@ -75,7 +75,28 @@ def gen_per_op_modes_case(rng, n_samples=1, nsg=None):
 BMM_CONST_LHS = [0.0]   # share of BATCH_MATMUL operators whose CONSTANT operand is the left one; set by the checks that classify finding D42
 
 
-def gen_case(rng, i, multi_every=6, share_every=4, shipped_every=3, n_samples=1, **kw):
+LEGACY_OPCODES = [0.07]   # share of generated cases whose operator codes use the pre-TF-2.4 encoding (deprecated_builtin_code only)
+
+
+def to_legacy_opcodes(mb):
+    """the same model with its operator codes written the way converters before TF 2.4 did: the code in `deprecated_builtin_code`,
+    `builtin_code` left at 0; the runtime reads the larger of the two fields and runs such files (defect D43)"""
+    m = flatbuffer_utils.read_model_from_bytearray(bytearray(mb))
+    for oc in m.operatorCodes:
+        if oc.builtinCode < 127:
+            oc.deprecatedBuiltinCode, oc.builtinCode = oc.builtinCode, 0
+    return bytes(flatbuffer_utils.convert_object_to_bytearray(m))
+
+
+def gen_case(rng, i, **kw):
+    case = _gen_case(rng, i, **kw)
+    if LEGACY_OPCODES[0] and rng.random() < LEGACY_OPCODES[0]:
+        case.mb = to_legacy_opcodes(case.mb)
+        case.info["tags"].add("legacy_operator_codes")
+    return case
+
+
+def _gen_case(rng, i, multi_every=6, share_every=4, shipped_every=3, n_samples=1, **kw):
     if i % 9 == 4:
         return gen_fanout_case(rng, n_samples)
     if i % 13 == 11 and not kw:
